@@ -76,7 +76,8 @@ IN_CASES = [
     # (outer table, lhs expr, inner query)
     ('t', 'a', 'SELECT a FROM #u'), ('t', 'a', 'SELECT a FROM #t WHERE a > 1'), ('t', 'b', 'SELECT b FROM #u'),
     ('t', 'a', 'SELECT a FROM #u WHERE a > 100'), ('u', 'a', 'SELECT a FROM #t'), ('t', 'a + 1', 'SELECT a FROM #u'),
-    ('t', 'a', 'SELECT max(a) FROM #u'), ('t', 'a', 'SELECT a FROM #u ORDER BY c LIMIT 2'), ('t', 'a', 'SELECT DISTINCT a FROM #t'),
+    ('t', 'a', 'SELECT max(a) FROM #u'), ('t', 'a', 'SELECT a FROM #t ORDER BY a LIMIT 3'), ('u', 'a', 'SELECT a FROM #t WHERE a IS NOT NULL ORDER BY a LIMIT 2'),
+    ('t', 'a', 'SELECT a FROM #t ORDER BY a DESC LIMIT 3'), ('t', 'b', 'SELECT b FROM #t ORDER BY b LIMIT 3'), ('t', 'a', 'SELECT a FROM #u ORDER BY c LIMIT 2'), ('t', 'a', 'SELECT DISTINCT a FROM #t'),
 ]
 
 
